@@ -555,6 +555,11 @@ class MultiVector:
                     new_data[bits] = new_coeff
 
             data = new_data
+        else:
+            # a scalar or bitmap form: no entry for a zero coefficient here
+            # either (truth value and equality compare the tables)
+            data = {bits: coeff for bits, coeff in data.items()
+                    if not is_zero(coeff)}
 
         # }}}
 
